@@ -30,7 +30,7 @@ def check(prog, res, tier):
 
     def chk_shape(p, mode):
         if p.outcome != 'return':
-            return [definite(f'mask raises {p.value!r}')]
+            return [definite(f'mask raises {p.value!r}')] if p.outcome == 'raise' else []
         v = p.value
         st = p.store
         x = p.interp.user['x'].segs[0].src
